@@ -248,7 +248,8 @@ func (x *Exec) zero(t types.Type) Val {
 			return PtrV{}
 		}
 		if isFloat(t) {
-			return OpaqueV{Kind: "float", Key: "0"}
+			z := 0.0
+			return OpaqueV{Kind: "float", Key: "f:0", F: &z}
 		}
 		if u.Kind() == types.UntypedNil {
 			return nil
